@@ -92,13 +92,23 @@ fn function_has_instance(
     // 3. Return OrdinaryHasInstance(F, V)
     // Get the prototype property of F
     let prototype_key = PropertyKey::String(interp.intern("prototype"));
+    // (a bound function stands for its target)
+    let mut func = func;
+    loop {
+        let target = match &func.borrow().exotic {
+            ExoticObject::Function(JsFunction::Bound(bound)) => bound.target.clone(),
+            _ => break,
+        };
+        func = target;
+    }
     let prototype_value = func.borrow().get_property(&prototype_key);
 
-    // If F.prototype is not an object, return false
+    // If F.prototype is not an object (an arrow function, a method of a built-in), the
+    // test has no answer
     let Some(JsValue::Object(prototype)) = prototype_value else {
-        // For functions without a prototype property (like arrow functions),
-        // we should return false, not throw
-        return Ok(Guarded::unguarded(JsValue::Boolean(false)));
+        return Err(JsError::type_error(
+            "Function has non-object prototype in instanceof check",
+        ));
     };
 
     // Walk the prototype chain of V looking for F.prototype
